@@ -381,9 +381,9 @@ def build_state_unit(ctx):
          "void invalidateJustSystemStage(struct StateImpl* self, Stage stg)", x_invsys, members=SI)
 
     def x_invall(r):
-        x_subsys_loop(r, 1, r"subsystems\[i\]\.invalidateStageJustThisSubsystem\(g\)", "invalidateStageJustThisSubsystem(vf_subsystems_at(self, i), g)", 1)
-        r.sub("implicit-this call", r"\binvalidateJustSystemStage\(g\)", "invalidateJustSystemStage(self, g)", 1)
-        loop_to_induction(r, "loop-contract:invalidateAll#loop1 (ghost subsystem index)", r"for \(int i=0; i<self->subsystems_size; \+\+i\)", "INVALIDATE_ALL", "self, g")
+        x_subsys_loop(r, 1, r"subsystems\[i\]\.invalidateStageJustThisSubsystem\(", "invalidateStageJustThisSubsystem(vf_subsystems_at(self, i), ", 1)
+        r.sub("implicit-this call", r"\binvalidateJustSystemStage\(", "invalidateJustSystemStage(self, ", 1)
+        loop_to_induction(r, "loop-contract:invalidateAll#loop1 (ghost subsystem index)", r"for \(int i=0;[^;]*;[^)]*\)", "INVALIDATE_ALL", "self, g")
     # callers (the upd* accessors) are verified against invalidateAll's CONTRACT: in units compiled with
     # -DINVALIDATEALL_BY_CONTRACT the real body is renamed and state_harness.h supplies the contract in
     # assert-requires / havoc / assume-ensures form (the same relation macros that unit state.invalidateAll proves)
@@ -397,9 +397,9 @@ def build_state_unit(ctx):
         r.drop("const_cast alias of this", r"StateImpl\* mthis = const_cast<StateImpl\*>\(this\);", "", 1)
         r.sub("unique index type -> int", r"SubsystemIndex i\(0\)", "int i=0", 1)
         r.sub("container access: .size() -> ghost length", r"\(int\)subsystems\.size\(\)", "self->subsystems_size", 1)
-        r.sub("container access -> contracted stub (element)", r"mthis->subsystems\[i\]\.invalidateStageJustThisSubsystem\(g\)", "invalidateStageJustThisSubsystem(vf_subsystems_at(self, i), g)", 1)
-        r.sub("const_cast alias of this", r"mthis->invalidateJustSystemStage\(g\)", "invalidateJustSystemStage(self, g)", 1)
-        loop_to_induction(r, "loop-contract:invalidateAllCacheAtOrAbove#loop1 (ghost subsystem index)", r"for \(int i=0; i<self->subsystems_size; \+\+i\)", "INVALIDATE_ALL", "self, g")
+        r.sub("container access -> contracted stub (element)", r"mthis->subsystems\[i\]\.invalidateStageJustThisSubsystem\(", "invalidateStageJustThisSubsystem(vf_subsystems_at(self, i), ", 1)
+        r.sub("const_cast alias of this", r"mthis->invalidateJustSystemStage\(", "invalidateJustSystemStage(self, ", 1)
+        loop_to_induction(r, "loop-contract:invalidateAllCacheAtOrAbove#loop1 (ghost subsystem index)", r"for \(int i=0;[^;]*;[^)]*\)", "INVALIDATE_ALL", "self, g")
     U.fn(STATEIMPL_H, r"void invalidateAllCacheAtOrAbove\(Stage g\) const\s*", "StateImpl::invalidateAllCacheAtOrAbove",
          "void invalidateAllCacheAtOrAbove(struct StateImpl* self, Stage g)", x_invcache, members=SI)
 
